@@ -1,5 +1,5 @@
 """Cases on the REAL physical models / fluxes / integrators (round-off regime): tokens for Judge_FVM1D / Judge_FVM2D."""
-import math, random
+import math, os, random, sys
 from fractions import Fraction
 import numpy as np
 from . import core, fd
@@ -1203,6 +1203,14 @@ def source_cases(rnd, tier):
         tables = {}
 
         form = ["closure", "default", "object", "partial", "method"][(c // 3) % 5]     # how the user wrote the callable
+        if c % 7 == 3:
+            # "every list of per-equation source functions" includes the list that names ONE function for several equations
+            # ([heat, heat, None], [f] * neq): each of those equations receives it once (seed C19h: the equation looked up by
+            # `source.index(callable)`, which finds the first slot only)
+            form = "shared"
+            if sum(subset) < 2:
+                subset = [True] * neq
+        shared = {}
 
         def mk(i):
             def body(x, q, k):
@@ -1217,6 +1225,11 @@ def source_cases(rnd, tier):
                         tables[(i, "copy")] = tables[i].copy()
                     return tables[i]
                 return k + 0.0 * x
+            if form == "shared":
+                if "f" not in shared:
+                    i = -1
+                    shared["f"] = lambda x, q: body(x, q, coefs[0])
+                return shared["f"]
             if form == "default":               # the loop-binding idiom (lambda x, q, k=k: ...): a THIRD positional parameter
                 def src(x, q, k=coefs[i]):
                     return body(x, q, k)
@@ -1332,6 +1345,17 @@ def source_cases(rnd, tier):
                 a0f, a1f = F(section[0]), F(section[1])
                 G = F(gam)
                 gworst = 0
+                # absolute round-off allowance of a flux balance: (F_right - F_left) / dx carries eps x |F| / dx whatever the
+                # balance itself is worth; where the two fluxes cancel by chance in one cell (balance 0.04 among neighbours of
+                # 1e8 on a mesh of 1e-10 cells: thorough tier, seed 2, Appendix B item 32) the local scale below says nothing
+                # about it.  |F| = physical flux + the dissipation scale (|u| + c) |Q| of the Riemann fluxes; factor 64.
+                with np.errstate(all="ignore"):
+                    rho_, mom_, en_ = (np.asarray(fe.data[j], dtype=float) for j in range(3))
+                    p_ = (gam - 1.0) * (en_ - 0.5 * mom_ * mom_ / rho_)
+                    smax_ = float(np.max(np.abs(mom_ / rho_) + np.sqrt(np.abs(gam * p_ / rho_))))
+                    fscale = [float(np.max(np.abs(mom_))) + smax_ * float(np.max(np.abs(rho_))),
+                              float(np.max(np.abs(mom_ * mom_ / rho_ + p_))) + smax_ * float(np.max(np.abs(mom_))),
+                              float(np.max(np.abs(mom_ * (en_ + p_) / rho_))) + smax_ * float(np.max(np.abs(en_)))]
                 for k in range(n):
                     xcq = F(float(xc[k]))
                     gterm = ((a0f + a1f * xf[k + 1]) - (a0f + a1f * xf[k])) / ((xf[k + 1] - xf[k]) * (a0f + a1f * xcq))
@@ -1342,7 +1366,13 @@ def source_cases(rnd, tier):
                         sc = abs(float(want[j])) + abs(Re[j][k]) + abs(R0[j][k])
                         if sc == 0:
                             continue
+                        allow = 64.0 * 2.0 ** -52 * fscale[j] / float(xf[k + 1] - xf[k])
+                        if math.isfinite(allow) and abs(F(float(R0[j][k])) - F(float(Re[j][k])) - want[j]) <= F(allow):
+                            continue
                         gworst = max(gworst, core.ulps(F(float(R0[j][k])) - F(float(Re[j][k])), want[j], sc))
+                if gworst > 2 ** 22 and os.environ.get("VERIF_DEBUG"):
+                    sys.stderr.write("DEBUG geom c=%d n=%d mesh=%r hist=%s section=%r\n xf=%r\n R0=%r\n Re=%r\n prim=%r\n form=%s subset=%r\n" % (
+                        c, n, type(m).__name__, hist, section, list(m.xf), R0, Re, prim, form, subset))
                 recs.append(dict(kind="src", diff=gworst, tol=2 ** 22, args=1, model="nozzle_geometric", flux=str(flux), recon=recon, n=n,
                                  subset=[], shape="section a0=%s a1=%s" % section, geom=1, history=hist))
         except Exception as ex:
